@@ -318,9 +318,9 @@ def run_case(seed, i, tier):
         prng = core.rng_for(seed, PROP, i, "plan", k)
         plan = core.random_plan(prng, len(scn.files), budget=3_000_000)
         plan.hashseed = rng.getrandbits(32)
-        res = core.execute(scn, plan, wall_cap=10.0)
+        res = core.execute(scn, plan, wall_cap=20.0)
         if res.timed_out:
-            res = core.execute(scn, plan, wall_cap=40.0)
+            res = core.execute(scn, plan, wall_cap=60.0)
         tr = res.trace
         cr.runs += 1
         cr.steps += tr.steps
